@@ -215,6 +215,16 @@ def geo_worlds(tier: str, seed: int, *, convs=W.ALL_CONVS, big: bool = True) -> 
             wd, h = (rng.randint(3, 6), rng.randint(3, 5)) if big else (rng.randint(2, 3), rng.randint(2, 3))
             m = W.random_mesh(rng, wd, h, shape=rng.choice(["rect", "skew", "skew2"]))
             out.append(mesh_world(m, enc=rng.choice(encs), edges=rng.random() < .5, centres=rng.random() < .3))
+    # (worlds added later go to the END of the list: positions decide how a world is written down and held)
+    for conv in ("shoc_standard", "arakawa"):
+        if conv not in convs:
+            continue
+        # six-degree cells whose longitudes fall on whole degrees and are stored as 32-bit integers, while the latitudes
+        # are doubles on half degrees: the two coordinate arrays of one grid have different types
+        wide = shifted(scaled(structured_world(conv, 2, 3, shape="rect"), 16), 64 * 100, 32)
+        wide["lon_dtype"] = "int32"
+        wide["pin_via"] = "memory"
+        out.append(wide)
     for w in out:
         # connectivity with an integer fill value next to the index range only exists undecoded, i.e. as built in memory
         if w["conv"] == "ugrid" and (w.get("enc") or {}).get("fillvalue") is not None:
